@@ -60,6 +60,11 @@ def run_morph_rd(case):
     else:
         um = C.tensortrax.Material(C.tensortrax.models.lagrange.morph_representative_directions, p=pm, nstatevars=84)
     G = [0.5 * zoo.offarr(case["seed"], 970 + k, (3, 3)) * 2 + np.diag(d_) for k, d_ in enumerate(([0.3, -0.1, 0.0], [0.0, 0.2, -0.15], [-0.2, 0.1, 0.25]))]
+    # (admissible states only: the generic part is scaled down until det(1 + 1.6 G) > 0.4 -- under VERIF_SEED=3 the un-scaled
+    #  second state had a negative determinant and the model answered NaN, a false alarm of the harness)
+    for k in range(len(G)):
+        while min(np.linalg.det(np.eye(3) + G[k]), np.linalg.det(np.eye(3) + 1.6 * G[k])) < 0.4:
+            G[k] = 0.8 * G[k]
     F = np.ascontiguousarray(np.stack([np.eye(3) + g_ for g_ in G], axis=-1)[..., None])  # (3,3,3,1), non-symmetric
     n = F.shape[2]
     rots = zoo.generic_rotations(case["seed"] + 5, 3) + zoo.cube_rotations()[1:4]
@@ -181,6 +186,26 @@ def run(case):
                         bad("virgin/stress-free", "undeformed virgin state is not stress free", pi, f"<= {bound:.1e}")
                 except Exception as ex:  # noqa
                     bad("virgin/stress-free/exception", "model raised at F = I", repr(ex)[:200], "value")
+        # one input array re-used in place, results of the earlier evaluations still held by the caller (the way a solid
+        # body extracts the kinematics into one array): F > Q F > 1; the stresses handed out earlier must keep their values
+        # and each evaluation must answer for the array's current content
+        Fw = np.ascontiguousarray(F.copy())
+        svw = None if sv is None else np.array(sv, copy=True)
+        held = []
+        Qh = rots[-1][1]
+        for hl, Fnew in (("F", F), ("QF", np.einsum("ij,jknq->iknq", Qh, F)), ("F-again", F)):
+            Fw[...] = Fnew
+            r_ = um.gradient([Fw, svw])[0]
+            st["trans"] += 1
+            want = P0 if hl != "QF" else np.einsum("ij,jknq->iknq", Qh, P0)
+            eh = np.abs(np.asarray(r_, float) - want).max() / sP
+            if not eh <= max(TOL, 10 * iso_bound):
+                bad(f"{slab}/inplace-input/{hl}", "stress for the current content of an input array that is re-used in place (superposed rotation)", float(eh), 0)
+            held.append((hl, r_, np.array(r_, dtype=float, copy=True)))
+        for hl, r_, keep in held:
+            st["traces"] += 1
+            if not np.array_equal(np.asarray(r_, float), keep, equal_nan=True):
+                bad(f"{slab}/held-result/{hl}", "a stress array returned by an earlier evaluation changed when the model was evaluated again", float(np.abs(np.asarray(r_, float) - keep).max() / sP), 0)
         # rotations
         for qlab, Q in rots:
             # left: objectivity
